@@ -429,6 +429,10 @@ func (dr *DialogueRunner) RestoreAt(snapshot *Snapshot) error {
 	for node, count := range snapshot.VisitedNodes {
 		dr.visitedNodes[node] = count
 	}
+	dr.variableSnapshot = make(map[string]variable.Value, len(snapshot.Variables))
+	for variable, value := range snapshot.Variables {
+		dr.variableSnapshot[variable] = value
+	}
 	dr.variableStorer.Clear()
 	for variable, value := range snapshot.Variables {
 		if value.Boolean != nil {
@@ -445,6 +449,9 @@ func (dr *DialogueRunner) RestoreAt(snapshot *Snapshot) error {
 	dr.statementsToRun.Clear()
 	dr.statementsToRun.Push(&statementQueue{statements: node.Statements})
 	dr.currentNode = node.Title()
+	// the node is entered afresh: forget a pending choice or command of the previous state
+	dr.lastStatement = nil
+	dr.commandErrChan = nil
 	return nil
 }
 
